@@ -374,6 +374,37 @@ def special_sequences(ctx, rng):
                 k = next(j for j, (a, b) in enumerate(zip(got, want)) if a != b)
                 ctx.violation("behaviour", "array-or-container-of-an-extended-structure-keeps-the-intermediate-state",
                               dict(det, got=repr(got[k])[:300], want=repr(want[k])[:300]))
+    # (c) a container declared *before* its member type is extended: afterwards it is the container of the complete
+    # member type (size, offsets, both readers, writer) -- nothing of the member's intermediate size survives
+    for compiled in (True, False):
+        for align in (False, True):
+            ctx.evaluation(("container-before-extension", compiled, align))
+            ctx.cell("container-declared-before-member-extension")
+            det = {"workload": "special-sequences", "compiled": compiled, "align": align, "part": "container-before-extension"}
+            try:
+                cs = lib.cstruct()
+                cs.load("struct I { uint8 a; };\nstruct O { uint8 x; I i; uint8 z; };", compiled=compiled, align=align)
+                cs.I.add_field("b", cs.uint32)
+                ref = lib.load("struct I { uint8 a; uint32 b; };\nstruct O { uint8 x; I i; uint8 z; };", "<", align, compiled)
+                data = bytes(range(1, 40))
+                v = cs.O(x=1, i=cs.I(a=2, b=3), z=4)
+                rv = ref.O(x=1, i=ref.I(a=2, b=3), z=4)
+
+                def facts(c, val):
+                    d = val.dumps()
+                    o = c.O(d + bytes(16))
+                    return (c.O.size, [f.offset for f in c.O.__fields__], d.hex(), (int(o.x), int(o.i.a), int(o.i.b), int(o.z)),
+                            repr(c.O(data)))
+                got, want = facts(cs, v), facts(ref, rv)
+            except Exception as e:  # noqa: BLE001
+                ctx.violation("build", f"incremental-build-raises:{type(e).__name__}", dict(det, error=lib.exc_sig(e)))
+                continue
+            if got != want:
+                k = next(j for j, (a, b) in enumerate(zip(got, want)) if a != b)
+                ctx.violation("behaviour", "K13:container-keeps-the-size-and-offsets-of-its-member-type-before-the-extension",
+                              dict(det, got=repr(got[k])[:300], want=repr(want[k])[:300]))
+            else:
+                ctx.event("containers_follow_member_extension")
 
 
 def run(ctx):
